@@ -116,6 +116,8 @@ def run_call(kind, objs, call, listeners, defaults=False):
         kw["stop"] = (ep + tick * call["b"]) if (call["b"] - call["a"]) % 2 else tick * (call["b"] - call["a"])
         if call["s"] != 0:
             kw["step"] = tick * call["s"]
+        if call["op"] == "iter-tolerant":
+            kw["strict"] = False
         if defaults:
             # arguments that equal their documented default are left out: start (the orbit's date / the table's first date),
             # stop (the table's last date)
@@ -139,7 +141,7 @@ def run_call(kind, objs, call, listeners, defaults=False):
 
 def classify(kind, call, order):
     """Root-cause class of a call (used in violation keys so that known findings match precisely)."""
-    if call["op"] == "iter":
+    if call["op"] in ("iter", "iter-tolerant"):
         if call["b"] < call["a"]:
             return "backward-range"
         if kind.name == "keplernum":
@@ -221,6 +223,8 @@ def main(inp, outp):
             continue
         real_view = ["raise"] if err else [int(x) if float(x).is_integer() else x for x in got_dates]
         model_agree["agree" if real_view == model else "differ"] += 1
+        if real_view != model and len(model_agree.setdefault("examples", [])) < 3:
+            model_agree["examples"].append({"call": last, "real": real_view[:12], "model": model[:12]})
         if err is not None:
             clause(f"{kind.name}: the call completes", False, f"{kind.name}/{cls}" if cls != "plain" else f"{kind.name}/raises",
                    f"{last} raised {err}", data)
@@ -228,7 +232,7 @@ def main(inp, outp):
         ok_dates = got_dates == [float(x) for x in exp]
         if not ok_dates:
             lo, hi = min(last["a"], last["b"]), max(last["a"], last["b"])
-            beyond = [x for x in got_dates if x < lo - 1e-6 or x > hi + 1e-6] if last["op"] == "iter" else []
+            beyond = [x for x in got_dates if x < lo - 1e-6 or x > hi + 1e-6] if last["op"] in ("iter", "iter-tolerant") else []
             sub = "dates-beyond-stop" if beyond else "dates"
             clause(f"{kind.name}: yields exactly the dates of the range / list, in order, none beyond stop", False,
                    f"{kind.name}/{cls}" if cls != "plain" else f"{kind.name}/{sub}", f"{last}: yielded {got_dates[:14]} expected {exp[:14]}", data)
